@@ -6,7 +6,12 @@
 // and every bodiless trait method contract below is an ASSUMPTION (trusted base);
 // each names the source that was read.  Included at TOP LEVEL after
 // prelude/merge_spec.rs (vocabulary `Rec`, `rv`, `commits`, `is_last_pos` shared with
-// unit `merge`).  Parts marked (merge_types) are the text of prelude/merge_types.rs.
+// unit `merge`).  Parts marked (merge_types) are the text of prelude/merge_types.rs
+// (plus, in the accessor contracts, the `store()` frame and the `write_fails` oracle).
+// Second wave: the vault store `ServerV` (`store()`), spec decoding `Decodable::dec_spec`,
+// `vault_of` (head-only vault a log replays to), the oracles `BackendEventLog::io_fails` /
+// `StorageEventLogs::write_fails` ("an error has a cause": uninterpreted, only ever used as
+// `Err ==> oracle`, so they assume nothing about when the environment fails).
 // ===========================================================================
 
 // ---- opaque error types -------------------------------------------------------
